@@ -141,6 +141,9 @@ func (err *yamlParseError) Error() string {
 		return fmt.Sprintf("invalid yaml: %s: %s",
 			err.fname, strings.TrimPrefix(err.err.Error(), "yaml: "))
 	}
+	if strings.HasPrefix(err.contents, "\ufeff") {
+		index++ // the decoder does not count a leading byte order mark
+	}
 	offset := len(err.contents)
 	for i := range err.contents { // index counts characters, not bytes
 		if index--; index < 0 {
